@@ -51,3 +51,42 @@ Definition holds_C14 (cwd lua_path main_path main_src : list Z) (files : list (l
            (raised : bool) (out : list Z) : bool :=
   let v := verdict_C14 cwd lua_path main_path main_src files raised out in
   (v =? 0) || (v =? 100).
+
+(* the predicate is not vacuous: it accepts the described cart of a two-package cycle, and rejects
+   the same cart with a package defined twice, with a game loop function left in, with the main
+   program changed, and a build that fails *)
+Definition ex_main : list Z := bs_ "x=require(""a"")" ++ [10].
+Definition ex_a : list Z := bs_ "function _init() end" ++ 10 :: bs_ "b=require(""b"")" ++ 10 :: bs_ "return 1".
+Definition ex_b : list Z := bs_ "a=require(""a"")" ++ [10].
+Definition ex_files : list (list Z * list Z) :=
+  [(bs_ "/sb/main.lua", ex_main); (bs_ "/sb/a.lua", ex_a); (bs_ "/sb/b.lua", ex_b)].
+Definition ex_block_a (body : list Z) : list Z :=
+  bs_ "package._c[""a""]=function()" ++ 10 :: body ++ bs_ "end" ++ [10].
+Definition ex_block_b : list Z :=
+  bs_ "package._c[""b""]=function()" ++ 10 :: ex_b ++ bs_ "end" ++ [10].
+Definition ex_body_a : list Z := bs_ "b=require(""b"")" ++ 10 :: bs_ "return 1" ++ [10].
+Definition ex_verdict (raised : bool) (out : list Z) : Z :=
+  verdict_C14 (bs_ "/sb") (bs_ "?;?.lua") (bs_ "main.lua") ex_main ex_files raised out.
+
+Example holds_C14_accepts :
+  ex_verdict false (spec_header_src ++ ex_block_a ex_body_a ++ ex_block_b ++ spec_loader_src ++ ex_main) = 0.
+Proof. vm_compute. reflexivity. Qed.
+Example holds_C14_rejects_twice :
+  ex_verdict false (spec_header_src ++ ex_block_a ex_body_a ++ ex_block_b ++ ex_block_a ex_body_a
+                    ++ spec_loader_src ++ ex_main) = 5.
+Proof. vm_compute. reflexivity. Qed.
+Example holds_C14_rejects_unstripped :
+  ex_verdict false (spec_header_src ++ ex_block_a (ex_a ++ [10]) ++ ex_block_b ++ spec_loader_src ++ ex_main) = 5.
+Proof. vm_compute. reflexivity. Qed.
+Example holds_C14_rejects_missing_package :
+  ex_verdict false (spec_header_src ++ ex_block_a ex_body_a ++ spec_loader_src ++ ex_main) = 6.
+Proof. vm_compute. reflexivity. Qed.
+Example holds_C14_rejects_changed_main :
+  ex_verdict false (spec_header_src ++ ex_block_a ex_body_a ++ ex_block_b ++ spec_loader_src
+                    ++ bs_ "x=require(""a"") x=nil" ++ [10]) = 8.
+Proof. vm_compute. reflexivity. Qed.
+Example holds_C14_rejects_failure : ex_verdict true [] = 2.
+Proof. vm_compute. reflexivity. Qed.
+Example holds_C14_demands_failure :
+  verdict_C14 (bs_ "/sb") (bs_ "?;?.lua") (bs_ "main.lua") ex_main [(bs_ "/sb/main.lua", ex_main)] false ex_main = 1.
+Proof. vm_compute. reflexivity. Qed.
